@@ -73,7 +73,7 @@ Qed.
 
 (* ------------------------------------------------------------------ join laws *)
 
-(** the unit tests of s3.rs:1429-1469 (they exercise paths.rs:113-141) *)
+(** the unit tests of s3.rs:1465-1505 (they exercise paths.rs:113-141) *)
 Lemma join_unit_tests :
   join (b "") (b "") = b "" /\ join_ts (b "") (b "") = b "" /\
   join (b "") (b "foo") = b "foo" /\ join_ts (b "") (b "foo") = b "foo/" /\
@@ -267,7 +267,7 @@ Proof.
 Qed.
 
 (** every key a listing returns begins with the repository prefix and a slash, and the
-    slicing of s3.rs:780-788 strips exactly that *)
+    slicing of s3.rs:816-824 strips exactly that *)
 Lemma prefix_offset_exact cp path key :
   pfx_ok cp = true -> starts_with (request_prefix cp path) key = true ->
   exists rel, key = under cp rel /\
@@ -282,7 +282,7 @@ Proof.
     + intros Hb. rewrite <- app_assoc. cbn [app]. now apply (slice_under (c :: cp)).
 Qed.
 
-(* ------------------------------------------------------------------ the stored prefix (s3.rs:741) *)
+(* ------------------------------------------------------------------ the stored prefix (s3.rs:777) *)
 
 Lemma trim_cons c r : trim_trailing_slashes (c :: r) =
   match trim_trailing_slashes r with [] => if is_slash c then [] else [c] | r' => c :: r' end.
@@ -749,7 +749,7 @@ Qed.
 (* ------------------------------------------------------------------ a listing of "path" is the subtree below "path/" *)
 
 (** the ListObjectsV2 prefix of a directory path: "<prefix>/<path>/" (join_with_trailing_slash,
-    s3.rs:761) - the trailing slash is what keeps "obj10/..." out of a listing of "obj1" *)
+    s3.rs:797) - the trailing slash is what keeps "obj10/..." out of a listing of "obj1" *)
 Lemma request_prefix_dir cp path : pfx_ok cp = true -> relb path = true ->
   request_prefix cp path = under cp (path ++ [slash]).
 Proof.
@@ -835,7 +835,7 @@ Proof.
     apply starts_with_refl_app.
 Qed.
 
-(** the recursive listing of a directory path (list_objects, s3.rs:754-756) returns exactly
+(** the recursive listing of a directory path (list_objects, s3.rs:790-792) returns exactly
     the stored paths below "path/", each once, in key order *)
 Lemma list_objects_below_lemma keys cp path :
   pfx_ok cp = true -> relb path = true -> keys_boundary_ok cp keys ->
@@ -922,3 +922,77 @@ Proof.
       apply bytes_eqb_eq in Ek. subst k. apply filter_In in Hk as [_ Hk]. fold f in Hk. congruence.
   - rewrite <- E2, <- J, map_map. reflexivity.
 Qed.
+
+(* ------------------------------------------------------------------ roots accepted for a new object *)
+
+Definition plain_part (sg : bytes) : Prop := sg <> [] /\ sg <> b "." /\ sg <> b "..".
+
+Lemma validate_parts_plain keys cp : forall parts current first,
+  validate_parts keys cp current first parts = Ok tt -> Forall plain_part parts.
+Proof.
+  induction parts as [|part rest IH]; intros current first H; [constructor|].
+  cbn [validate_parts] in H.
+  destruct (is_nil part || bytes_eqb part (b ".") || bytes_eqb part (b "..")) eqn:E; [discriminate|].
+  apply orb_false_iff in E as [E E3]. apply orb_false_iff in E as [E1 E2].
+  assert (P : plain_part part).
+  { repeat split.
+    - now apply is_nil_false.
+    - now apply bytes_eqb_false.
+    - now apply bytes_eqb_false. }
+  destruct (first && bytes_eqb part K_EXTENSIONS_DIR); [discriminate|].
+  destruct rest as [|r rest']; [constructor; [exact P|constructor]|].
+  destruct (list_all keys cp (join current part) true) as [[objs dirs]| |]; [|discriminate|discriminate].
+  destruct (is_object_dir objs); [discriminate|]. constructor; [exact P|]. eapply IH; exact H.
+Qed.
+
+Lemma validate_first_not_extensions keys cp root :
+  s3_validate_object_root keys cp root = Ok tt -> hd [] (segments root) <> K_EXTENSIONS_DIR.
+Proof.
+  unfold s3_validate_object_root. destruct (segments root) as [|part rest]; [discriminate|].
+  cbn [validate_parts hd andb].
+  destruct (is_nil part || _ || _); [discriminate|].
+  destruct (bytes_eqb part K_EXTENSIONS_DIR) eqn:E; [discriminate|]. intros _. now apply bytes_eqb_false.
+Qed.
+
+(** a string all of whose segments are non-empty is a relative path: not empty, no slash at
+    either end (and no double slash) *)
+Lemma segments_nonempty_relb root : Forall (fun sg => sg <> []) (segments root) -> relb root = true.
+Proof.
+  intros H. unfold relb.
+  assert (N1 : root <> []).
+  { intros ->. inversion H as [|? ? Hx _]. congruence. }
+  assert (N2 : head_is_slash root = false).
+  { destruct root as [|c r]; [reflexivity|]. cbn [head_is_slash]. destruct (is_slash c) eqn:C; [|reflexivity].
+    unfold segments in H. cbn [split_slash] in H. rewrite C in H. inversion H as [|? ? Hx _]. cbn in Hx. congruence. }
+  assert (N3 : last_is_slash root = false).
+  { destruct (last_is_slash root) eqn:L; [|reflexivity]. apply last_is_slash_inv in L as [r ->].
+    rewrite segments_app in H. apply Forall_app in H as [_ H]. inversion H as [|? ? Hx _]. congruence. }
+  apply is_nil_false in N1. now rewrite N1, N2, N3.
+Qed.
+
+(** every root S3 accepts for a new object is a normalised relative path outside extensions/ *)
+Lemma validated_root_lemma keys cp root :
+  s3_validate_object_root keys cp root = Ok tt ->
+  relb root = true /\ Forall plain_part (segments root) /\ hd [] (segments root) <> K_EXTENSIONS_DIR.
+Proof.
+  intros H. pose proof (validate_parts_plain _ _ _ _ _ H) as P. split; [|split].
+  - apply segments_nonempty_relb. eapply Forall_impl; [|exact P]. intros sg Hs. apply Hs.
+  - exact P.
+  - eapply validate_first_not_extensions; exact H.
+Qed.
+
+(** a plain relative root with no object declared at a proper ancestor is accepted (samples) *)
+Lemma validate_root_cases :
+  let keys := [b "p/obj1/0=ocfl_object_1.0"; b "p/obj1/v1/content/a"; b "p/coll/obj2/0=ocfl_object_1.1"] in
+  s3_validate_object_root keys (b "p") (b "obj10") = Ok tt /\
+  s3_validate_object_root keys (b "p") (b "coll/obj3") = Ok tt /\
+  s3_validate_object_root keys (b "p") (b "obj1/sub") = Err /\
+  s3_validate_object_root keys (b "p") (b "obj1/v1/content") = Err /\
+  s3_validate_object_root keys (b "p") (b "coll/obj2/x") = Err /\
+  s3_validate_object_root keys (b "p") (b "extensions/e1") = Err /\
+  s3_validate_object_root keys (b "p") (b "../out") = Err /\
+  s3_validate_object_root keys (b "p") (b "a//b") = Err /\
+  s3_validate_object_root keys (b "p") (b "./x") = Err /\
+  s3_validate_object_root keys (b "p") (b "a/b/") = Err /\
+  s3_validate_object_root keys (b "p") (b "") = Err.
+Proof. repeat split; vm_compute; reflexivity. Qed.
